@@ -189,6 +189,8 @@ impl<Db: Database> StorageManager<Db> {
 
     /// Commit a transaction in the database.
     pub async fn commit_transaction(&self) -> Result<u64, StorageError> {
+        #[cfg(akd_verif)]
+        crate::verif_hooks::sim_point("commit_transaction").await;
         // this retrieves all the trans operations, and "de-activates" the transaction flag
         let records = self.transaction.commit_transaction()?;
         let num_records = records.len();
@@ -258,6 +260,8 @@ impl<Db: Database> StorageManager<Db> {
 
     /// Store a record in the database.
     pub async fn set(&self, record: DbRecord) -> Result<(), StorageError> {
+        #[cfg(akd_verif)]
+        crate::verif_hooks::sim_point("set").await;
         // we're in a transaction, set the item in the transaction
         if self.is_transaction_active() {
             self.transaction.set(&record);
@@ -277,6 +281,8 @@ impl<Db: Database> StorageManager<Db> {
 
     /// Set a batch of records in the database.
     pub async fn batch_set(&self, records: Vec<DbRecord>) -> Result<(), StorageError> {
+        #[cfg(akd_verif)]
+        crate::verif_hooks::sim_point("batch_set").await;
         if records.is_empty() {
             // nothing to do, save the cycles
             return Ok(());
@@ -339,6 +345,8 @@ impl<Db: Database> StorageManager<Db> {
 
     /// Retrieve a stored record from the database.
     pub async fn get<St: Storable>(&self, id: &St::StorageKey) -> Result<DbRecord, StorageError> {
+        #[cfg(akd_verif)]
+        crate::verif_hooks::sim_point("get").await;
         if let Some(result) = self.get_from_cache_only::<St>(id).await {
             return Ok(result);
         }
@@ -361,6 +369,8 @@ impl<Db: Database> StorageManager<Db> {
         &self,
         ids: &[St::StorageKey],
     ) -> Result<Vec<DbRecord>, StorageError> {
+        #[cfg(akd_verif)]
+        crate::verif_hooks::sim_point("batch_get").await;
         let mut records = Vec::new();
 
         if ids.is_empty() {
@@ -413,6 +423,8 @@ impl<Db: Database> StorageManager<Db> {
 
     /// Flush the caching of objects (if present).
     pub async fn flush_cache(&self) {
+        #[cfg(akd_verif)]
+        crate::verif_hooks::sim_point("flush_cache").await;
         if let Some(cache) = &self.cache {
             cache.flush().await;
         }
@@ -424,6 +436,8 @@ impl<Db: Database> StorageManager<Db> {
         username: &AkdLabel,
         epoch: u64,
     ) -> Result<(), StorageError> {
+        #[cfg(akd_verif)]
+        crate::verif_hooks::sim_point("tombstone_value_states").await;
         let key_data = self.get_user_data(username).await?;
         let mut new_data = vec![];
         for value_state in key_data.states.into_iter() {
@@ -452,6 +466,8 @@ impl<Db: Database> StorageManager<Db> {
         username: &AkdLabel,
         flag: ValueStateRetrievalFlag,
     ) -> Result<ValueState, StorageError> {
+        #[cfg(akd_verif)]
+        crate::verif_hooks::sim_point("get_user_state").await;
         let maybe_db_state = match self
             .tic_toc(METRIC_READ_TIME, self.db.get_user_state(username, flag))
             .await
@@ -496,6 +512,8 @@ impl<Db: Database> StorageManager<Db> {
 
     /// Retrieve all values states for a given user.
     pub async fn get_user_data(&self, username: &AkdLabel) -> Result<KeyData, StorageError> {
+        #[cfg(akd_verif)]
+        crate::verif_hooks::sim_point("get_user_data").await;
         let maybe_db_data = match self
             .tic_toc(METRIC_READ_TIME, self.db.get_user_data(username))
             .await
@@ -546,6 +564,8 @@ impl<Db: Database> StorageManager<Db> {
         usernames: &[AkdLabel],
         flag: ValueStateRetrievalFlag,
     ) -> Result<HashMap<AkdLabel, (u64, AkdValue)>, StorageError> {
+        #[cfg(akd_verif)]
+        crate::verif_hooks::sim_point("get_user_state_versions").await;
         let mut data = self
             .tic_toc(
                 METRIC_READ_TIME,
